@@ -511,7 +511,7 @@ def _sub_is(node, name: str, idx: int) -> bool:
             and isinstance(node.slice, ast.Constant) and node.slice.value == idx)
 
 
-@R.rule("C31-R3", floor=7, template="T-FLOW",
+@R.rule("C31-R3", floor=8, template="T-FLOW",
         desc="UOWTransaction.execute runs exactly the actions returned by _generate_actions in the order given by "
              "topological.sort / sort_as_subsets over self.dependencies; _generate_actions detects cycles over the "
              "same edge set, converts exactly the cycle members to per-object actions and rewrites edges with one "
@@ -587,10 +587,62 @@ def r3(ctx):
               "per-object actions are not generated for exactly the members of `cycles`",
               "convert = {rec: per_state_flush_actions for rec in cycles}", ga.loc)
     # (e) edge rewriting
-    loops = [n for n in walk_local(ga.node) if isinstance(n, ast.For) and "self.dependencies" in unparse(n.iter) and isinstance(n.target, ast.Name)]
-    ctx.require(loops, "_generate_actions has no loop over self.dependencies")
+    # the rewrite loop iterates a snapshot of self.dependencies: `for e in list(self.dependencies)` or a local
+    # bound to such a snapshot; it is the loop that removes its own element from self.dependencies
+    ga_binds: Dict[str, List[Tuple[ast.AST, ast.stmt]]] = {}
+    for n, v, st in name_stores(ga.node):
+        if v is not None:
+            ga_binds.setdefault(n, []).append((v, st))
+
+    def _snapshot_stmt(loop: ast.For):
+        """statement that reads self.dependencies for this loop (the loop itself or the binding of its iterable)"""
+        if any(dotted(x) == "self.dependencies" for x in ast.walk(loop.iter)):
+            return loop
+        names = [x.id for x in ast.walk(loop.iter) if isinstance(x, ast.Name)]
+        for nm in names:
+            bs = ga_binds.get(nm, [])
+            if len(bs) == 1 and any(dotted(x) == "self.dependencies" for x in ast.walk(bs[0][0])):
+                return bs[0][1]
+        return None
+
+    loops = []
+    for n in walk_local(ga.node):
+        if isinstance(n, ast.For) and isinstance(n.target, ast.Name) and _snapshot_stmt(n) is not None and any(
+                (call_name(c) or "") == "self.dependencies.remove" and c.args and unparse(c.args[0]) == n.target.id
+                for c in calls_in(n)):
+            loops.append(n)
+    ctx.require(len(loops) == 1, f"_generate_actions has {len(loops)} loops that rewrite a snapshot of self.dependencies (expected 1)")
     lp = loops[0]
     ev = lp.target.id
+    snap = _snapshot_stmt(lp)
+    # (e0) the snapshot is taken after the per-object actions were generated: per_state_flush_actions() itself
+    # registers edges that point at aggregate actions of the cycle, they must be rewritten too
+    g_ga = ctx.cfg(ga)
+    conv_calls = calls_named(ga.node, "per_state_flush_actions")
+    ctx.require(conv_calls, "_generate_actions does not call per_state_flush_actions")
+    conv_nodes = sorted({i for c in conv_calls for i in g_ga.nodes_containing(c)})
+    snap_nodes = list(g_ga.nodes_for(snap))
+    ctx.require(conv_nodes and snap_nodes, "cannot locate the conversion / snapshot statements on the CFG of _generate_actions")
+    registering = sorted(
+        f.key.split("::")[1] for f in ctx.index.all_functions(ga.module)
+        if f.name == "per_state_flush_actions" and any((call_name(c) or "").rsplit(".", 2)[-2:] in (["dependencies", "add"], ["dependencies", "update"]) for c in calls_in(f.node)))
+    w_before = None
+    for sn in snap_nodes:
+        w_before = w_before or g_ga.always_preceded(sn, conv_nodes)
+    later = sorted(set(conv_nodes) & (g_ga.reachable(snap_nodes) - set(snap_nodes))) if not isinstance(snap, ast.For) else \
+        sorted(set(conv_nodes) & g_ga.reachable([b for sn in snap_nodes for b, lab in g_ga.succ[sn] if lab != "loop"]) - set(snap_nodes)) and []
+    if not registering:
+        ctx.ok(f"{ga.key}:rewrite-after-convert", "no per_state_flush_actions() registers dependency edges: order is immaterial")
+    else:
+        ctx.check(w_before is None and not later, f"{ga.key}:rewrite-after-convert",
+                  f"the edges to rewrite are read from self.dependencies (`{unparse(snap).splitlines()[0][:70]}`, line {snap.lineno}) "
+                  f"{'before' if w_before is not None else 'while'} the per-object actions are generated: {', '.join(registering)} add edges "
+                  "that point at aggregate actions of the cycle (e.g. per-object save -> aggregate delete); they are missing from "
+                  "the snapshot, are never rewritten onto per-object actions and drop out of the topological sort (saves are no "
+                  "longer ordered before the deletes of the same mapper in cycle mode)",
+                  f"snapshot of self.dependencies (line {snap.lineno}) is dominated by the per_state_flush_actions() conversion; "
+                  f"edges registered there by {', '.join(registering)} are rewritten",
+                  ga.loc, w_before)
     found = {0: False, 1: False}
     removed_both = False
     for n in ast.walk(lp):
